@@ -26,7 +26,7 @@ BIN = ['and', 'or', 'implies', 'iff', 'xor', 'add', 'sub', 'mul', 'leq', 'lt', '
 BINT = ['since_t', 'until_t']
 
 
-def h_op(f, ns, start='zero', kind='offline', same_start=False):
+def h_op(f, ns, start='zero', kind='offline', same_start=False, grids=None):
     f = T(f)
     op = f[0]
     binary = op in BIN or op in BINT
@@ -38,8 +38,12 @@ def h_op(f, ns, start='zero', kind='offline', same_start=False):
         A = env.A
         vs = ['x', 'y'] if binary else ['x']
         s = ct.make_spec(kind, 'out = ' + text(f), vs)
-        sigs = [ct.signal(env, v, n, start) for v, n in zip(vs, ns)]
-        if binary and same_start:
+        if grids:
+            # concrete (unaligned) time-stamps, symbolic values: more samples per signal at the price of fixed sampling instants
+            sigs = [ct.signal(env, v, len(g), start, grid=g) for v, g in zip(vs, grids)]
+        else:
+            sigs = [ct.signal(env, v, n, start) for v, n in zip(vs, ns)]
+        if binary and same_start and not grids:
             env.assume(A.eq(sigs[0][0][0], sigs[1][0][0]))
         out = s.evaluate(*[[v, [list(p) for p in sg]] for v, sg in zip(vs, sigs)])
         env.observe('out', out)
@@ -123,6 +127,17 @@ def obligations(tier, rng):
                     continue            # 1-2 min each; thorough tier only
                 out.append(ob('C04', 'op', '%s/%s/n=[2, 2]%s' % (start, text(f), '/same-start' if same else ''), f=f, ns=[2, 2],
                               start=start, same_start=same, max_paths=60000, wall=1500))
+    GRIDS = [([0, 2, 2.5, 6], [0, 1, 1.5, 6]), ([0, 1, 3, 4.5], [0, 0.5, 2, 5]), ([0, 0.5, 1, 4], [0, 3, 3.5, 4])]
+    GRIDS3 = [([0, 2, 2.5], [0, 1, 1.5]), ([0, 1, 3], [0, 0.5, 2])]
+    for k, bd in [('since', None), ('until', None), ('since_t', (1, 3)), ('until_t', (1, 3)), ('since_t', (1, 2)), ('until_t', (0, 2))]:
+        f = (k, X, Y) if bd is None else (k, X, Y, bd[0], bd[1])
+        if quick:
+            if bd is not None and bd[0] > 0:
+                for gi, (gx, gy) in enumerate(GRIDS3):
+                    out.append(ob('C04', 'op', 'grid3-%d/%s/n=[3, 3]' % (gi, text(f)), f=f, ns=[3, 3], grids=[gx, gy], max_paths=100000, wall=600))
+            continue            # 4+4 samples on a grid take 2-5 min per obligation: thorough tier
+        for gi, (gx, gy) in enumerate(GRIDS):
+            out.append(ob('C04', 'op', 'grid%d/%s/n=[4, 4]' % (gi, text(f)), f=f, ns=[4, 4], grids=[gx, gy], max_paths=100000, wall=1500))
     for f in NESTED:
         two = len(refsem.variables(f)) > 1
         for ns in ([[2, 2]] if two else ([[3]] if quick else [[3], [4]])):
@@ -134,6 +149,9 @@ def obligations(tier, rng):
                           same_start=(k == 'since_t'), max_paths=60000, wall=1500))
             out.append(ob('C04', 'op', 'zero/%s/n=[3, 1]%s' % (text(f), '/same-start' if k == 'since_t' else ''), f=f, ns=[3, 1], start='zero',
                           same_start=(k == 'since_t'), max_paths=60000, wall=1500))
+            if not quick:
+              out.append(ob('C04', 'op', 'zero/%s/n=[3, 2]%s' % (text(f), '/same-start' if k == 'since_t' else ''), f=f, ns=[3, 2], start='zero',
+                          same_start=(k == 'since_t'), max_paths=100000, wall=1500))
     res_ = out
     from .. import core as _core
     res_ = res_ + _core.make_twins(res_, [('zero/once[0,1](x)/n=2', 'ctwindow'), ('zero/always[1,2](x)/n=2', 'ctminmax'), ('zero/(x) and (y)/n=[2, 2]', 'ctminmax'), ('free/eventually[0,1](x)/n=2', 'ctwindow')]) + _core.make_forkmode(res_, ['zero/(x) and (y)/n=[2, 2]', 'zero/once(x)/n=2'])
